@@ -68,3 +68,25 @@ def run(chk):
                       'content_bytes': len(f['content'])} for f in (frames[0], frames[len(frames) // 2], frames[-1])],
                     rule='libzstd frames over levels -5..22, window logs, checksum/content-size flags, long-distance mode and flush patterns; frames of this crate\'s compressor; hand-built raw/RLE/raw-literal frames; distinct = distinct frame byte strings')
     chk.cov['components']['frames']['feature_histogram'] = dict(sorted(feats.items()))
+    # ---- sequences whose three extra-bit fields exceed 56 bits together: needs an offset code >= 26, i.e. more
+    # than 64 MiB of history (built from RLE blocks).  Too large for the list-based model: implementation against the
+    # RFC execution in tools/synth.py and libzstd.
+    wide = synth.make_wide_sequence_frames(rng)
+    for f in wide:
+        z = zh('codec', ['zdeck %s' % hexs(f['frame'])], timeout=300)[1]
+        z = (z[0] if z else 'missing').split()
+        r = zh('prog', ['src=%s I Ba X Q' % hexs(f['frame'])], timeout=300)[1]
+        t = (r[0] if r else 'missing').split()
+        x = next((v for v in t if v.startswith('X:')), 'X:none')
+        why = None
+        if z[0] != 'ok' or z[1:3] != [str(f['length']), str(f['xxh'])]:
+            chk.notes.append('libzstd does not confirm a hand-built wide-sequence frame (%s); skipped' % ' '.join(z)[:60])
+            continue
+        if x != 'X:%d:%d' % (f['length'], f['xxh']):
+            why = 'a sequence needing more than 56 extra bits (%s) is decoded wrongly: %s, expected %d bytes with XXH64 %d' % (
+                ', '.join(f['features']), ' '.join(v for v in t if v[0] in 'IBX')[:80], f['length'], f['xxh'])
+        if why:
+            chk.violation(why, {'component': 'wide-sequence', 'frame_hex': hexs(f['frame']),
+                                'how': 'echo "src=<frame_hex> I Ba X" | _build/cargo/release/zh prog   (X prints length and XXH64 of the collected output)'})
+    chk.add_samples('wide-sequence', len(wide), len(wide), [{'features': f['features'], 'frame_bytes': len(f['frame']), 'content_bytes': f['length']} for f in wide],
+                    rule='513 RLE blocks of 128 KiB (64.1 MiB of history, window log 27) then one compressed block with a single sequence: offset code 26 with literal length 65536 / match length 32771 and with 32768 / 65539 (57 extra bits in one read)')
